@@ -338,7 +338,12 @@ func runC10(c *vh.Case, spec c10Spec) {
 	h := mcp.NewStreamableHTTPHandler(func(*http.Request) *mcp.Server { return server }, opts)
 	var ip c10Client = &vhm.InProc{Handler: h}
 	if spec.Real {
-		ip = newC10Real(h)
+		rr := newC10Real(h)
+		if rr == nil {
+			c.Count("real_socket_cases_skipped_no_listener", 1)
+			return
+		}
+		ip = rr
 	}
 	proto := spec.Proto
 	if proto == "" {
@@ -452,7 +457,11 @@ func runC10(c *vh.Case, spec c10Spec) {
 			initOf.Store(int64(i))
 			st, rh, body, err := ip.Do(ctx, "POST", "http://example.test/mcp", hdr(""), initBody)
 			if err != nil || st != 200 {
-				c.Inconclusive("stateless initialize %d: %d %v", i, st, err)
+				if spec.Real {
+					c.Count("real_socket_cases_skipped_setup_failed", 1)
+				} else {
+					c.Inconclusive("stateless initialize %d: %d %v", i, st, err)
+				}
 				return
 			}
 			absorbInit(rh, body, -1, "")
@@ -463,7 +472,11 @@ func runC10(c *vh.Case, spec c10Spec) {
 			initOf.Store(int64(i))
 			st, rh, body, err := ip.Do(ctx, "POST", "http://example.test/mcp", hdr(""), initBody)
 			if err != nil || st != 200 {
-				c.Inconclusive("initialize session %d: %d %v", i, st, err)
+				if spec.Real {
+					c.Count("real_socket_cases_skipped_setup_failed", 1)
+				} else {
+					c.Inconclusive("initialize session %d: %d %v", i, st, err)
+				}
 				return
 			}
 			sids[i] = rh.Get("Mcp-Session-Id")
@@ -486,7 +499,11 @@ func runC10(c *vh.Case, spec c10Spec) {
 			req.Header.Set("Accept", "text/event-stream")
 			resp, err := ip.RoundTrip(req)
 			if err != nil || resp.StatusCode != 200 {
-				c.Inconclusive("standalone GET session %d failed", i)
+				if spec.Real {
+					c.Count("real_socket_cases_skipped_setup_failed", 1)
+				} else {
+					c.Inconclusive("standalone GET session %d failed", i)
+				}
 				return
 			}
 			i := i
@@ -918,7 +935,12 @@ type c10Real struct {
 	tr  *http.Transport
 }
 
-func newC10Real(h http.Handler) *c10Real {
+func newC10Real(h http.Handler) (r *c10Real) {
+	defer func() {
+		if recover() != nil {
+			r = nil // no loopback listener to be had: the caller skips the case
+		}
+	}()
 	return &c10Real{srv: httptest.NewServer(h), tr: &http.Transport{MaxIdleConnsPerHost: 64}}
 }
 
